@@ -621,26 +621,33 @@ Section NestProof.
     - intros a b [<-|[]] [<-|[]] H. now rewrite nested_irrefl in H.
   Qed.
 
-  Theorem nesting_depth_spec ids : NoDup ids -> nesting_result ids (init_nested_spec nested ids).
+  Theorem nesting_depth_spec stored ids : NoDup ids -> nesting_result ids (init_nested_spec nested stored ids).
   Proof.
     intro ND. pose proof (general_result ids ND) as G. unfold out_of in G. rewrite rev_length in G.
     destruct ids as [|x [|y t]]; [exact G|apply single_result|exact G].
   Qed.
 
-  Theorem init_nested_eq_spec ids : NoDup ids -> init_nested nested ids = init_nested_spec nested ids.
+  Theorem init_nested_eq_spec stored ids : NoDup ids ->
+    init_nested nested stored ids = init_nested_spec nested stored ids.
   Proof.
     intro ND. destruct (insert_all_inv' ids ND) as [NR I].
     pose proof (init_loops_eq _ _ I NR) as E. unfold out_of in E. rewrite rev_length in E.
     destruct ids as [|x [|y t]]; [exact E|reflexivity|exact E].
   Qed.
 
-  Theorem nesting_depth ids : NoDup ids -> nesting_result ids (init_nested nested ids).
+  Theorem nesting_depth stored ids : NoDup ids -> nesting_result ids (init_nested nested stored ids).
   Proof. intro ND. rewrite init_nested_eq_spec by exact ND. now apply nesting_depth_spec. Qed.
 
+  (** the depths a *Loop carries from an earlier polygon (or from Decode) do not influence the
+      result — for every input, no premise on [nested] *)
+  Theorem nesting_ignores_stale_depths stored stored' ids :
+    init_nested nested stored ids = init_nested nested stored' ids.
+  Proof. destruct ids as [|x [|y t]]; reflexivity. Qed.
+
   (** Loop.IsHole is depth&1 != 0: a loop is a hole iff an odd number of other loops enclose it *)
-  Corollary hole_parity ids l d : NoDup ids -> In (l, d) (init_nested nested ids) ->
+  Corollary hole_parity stored ids l d : NoDup ids -> In (l, d) (init_nested nested stored ids) ->
     Nat.odd d = Nat.odd (enclosing ids l).
-  Proof. intros ND H. destruct (nesting_depth ids ND) as [_ [K _]]. now destruct (proj1 (K l d) H) as [_ ->]. Qed.
+  Proof. intros ND H. destruct (nesting_depth stored ids ND) as [_ [K _]]. now destruct (proj1 (K l d) H) as [_ ->]. Qed.
 End NestProof.
 
 (** the hypotheses are satisfiable: three loops, 0 contains 1 contains 2 *)
@@ -649,7 +656,7 @@ Example nesting_hypotheses_satisfiable :
   (forall a, nested a a = false) /\
   (forall a b c, nested a b = true -> nested b c = true -> nested a c = true) /\
   (forall a b c, nested a c = true -> nested b c = true -> a = b \/ nested a b = true \/ nested b a = true) /\
-  init_nested nested [2; 0; 1] = [(0, 0); (1, 1); (2, 2)].
+  init_nested nested (fun _ => 5) [2; 0; 1] = [(0, 0); (1, 1); (2, 2)].
 Proof.
   cbv zeta. repeat split.
   - intro a. now rewrite Nat.ltb_irrefl.
